@@ -31,15 +31,21 @@ theorem facts_account_modifiers :
       ("StateModifier", "State"), ("ValueModifier", "Value"), ("VersionModifier", "Version")] := by decide
 
 /-- bucket routing of the helper calls: staging reads MAIN and writes the STAGING bucket, completion copies
-STAGING to MAIN, direct updates read and write MAIN -/
+STAGING to MAIN, direct updates read and write MAIN.  Values are identified by ROLE, not by the spelling of local
+names: `$i` = i-th parameter of the function, `cb$i` = i-th parameter of the transaction closure, a local is
+replaced by its defining expression (`#0` = first result). -/
 theorem facts_bucket_routing :
-    stageUpdateOrderArgs = [["ordersBucket", "pendingOrdersBucket"]] ∧
-    stageUpdateAccountArgs = [["accountsBucket", "pendingAccountsBucket"]] ∧
-    applyUpdateAccountArgs = [["pendingAccounts", "accounts"]] ∧
-    applyCopyOrderArgs = [["pendingOrders", "orders"]] ∧
-    directUpdateOrderArgs = [["rootBucket", "rootBucket"]] ∧
-    directUpdateOrdersArgs = [["rootBucket", "rootBucket"]] ∧
-    directUpdateAccountArgs = [["accounts", "accounts"]] := by decide
+    stageUpdateOrderArgs = [["(getBucket(cb$0,ordersBucketKey))#0",
+      "(getNestedBucket((getBucket(cb$0,batchBucketKey))#0,pendingBatchOrdersBucketKey,true))#0"]] ∧
+    stageUpdateAccountArgs = [["(getBucket(cb$0,accountBucketKey))#0",
+      "(getNestedBucket((getBucket(cb$0,batchBucketKey))#0,pendingBatchAccountsBucketKey,true))#0"]] ∧
+    applyUpdateAccountArgs = [["(getNestedBucket((getBucket($0,batchBucketKey))#0,pendingBatchAccountsBucketKey,false))#0",
+      "(getBucket($0,accountBucketKey))#0"]] ∧
+    applyCopyOrderArgs = [["(getNestedBucket((getBucket($0,batchBucketKey))#0,pendingBatchOrdersBucketKey,false))#0",
+      "(getBucket($0,ordersBucketKey))#0"]] ∧
+    directUpdateOrderArgs = [["(getBucket(cb$0,ordersBucketKey))#0", "(getBucket(cb$0,ordersBucketKey))#0"]] ∧
+    directUpdateOrdersArgs = [["(getBucket(cb$0,ordersBucketKey))#0", "(getBucket(cb$0,ordersBucketKey))#0"]] ∧
+    directUpdateAccountArgs = [["(getBucket(cb$0,accountBucketKey))#0", "(getBucket(cb$0,accountBucketKey))#0"]] := by decide
 
 /-- the serializer and the deserializer agree on the states without `LatestTx` -/
 theorem facts_serializer_symmetric : serializeNoLatestTx = deserializeNoLatestTx := by decide
@@ -63,15 +69,19 @@ stream (so the in-memory order carries every optional term) and then rewrite ALL
 into the destination: the order itself, its minimum match size, its TLV stream and (bids) its node tier; the
 event goes to the MAIN order bucket.  This is what lets the model move `Ord` records (incl. `minMatch`, `tier`,
 `extras`) as units, so that "completion applies exactly the staged version" is about full orders. -/
+-- `ORDER` = the order decoded by `DeserializeOrder` from the raw bytes (`cb$1` of the fetch callback), `$1` = the
+-- destination bucket parameter, `cb$2` = the `extraOrderData` the callback received
 theorem facts_order_keys :
-    updateOrderStores = [["storeEventTX", "orderBucket", "evt"], ["storeOrderTX", "dst", "nil"],
-      ["storeOrderMinUnitsMatchTX", "dst", "o.Details().MinUnitsMatch"], ["storeOrderTlvTX", "dst", "o"],
-      ["storeOrderMinNoderTierTX", "dst", "bidOrder.MinNodeTier"]] ∧
-    copyOrderStores = [["storeOrderTX", "dst", "nil"], ["storeOrderTlvTX", "dst", "o"],
-      ["storeOrderMinNoderTierTX", "dst", "nodeTier"], ["storeOrderMinUnitsMatchTX", "dst", "minUnitsMatch"]] ∧
-    updateOrderDecodes = ["DeserializeOrder(r)", "deserializeOrderTlvData(o)"] ∧
-    copyOrderDecodes = ["DeserializeOrder(r)", "deserializeOrderTlvData(o)"] ∧
-    getOrderDecodes = ["DeserializeOrder(r)", "deserializeOrderTlvData(o)"] := by decide
+    updateOrderStores = [["storeEventTX", "($0.Bucket(cb$0[:]))", "(NewUpdatedEvent((ORDER.Details().State),ORDER))"],
+      ["storeOrderTX", "$1", "var:bytes.Buffer.Bytes() | nil"],
+      ["storeOrderMinUnitsMatchTX", "$1", "ORDER.Details().MinUnitsMatch"], ["storeOrderTlvTX", "$1", "ORDER"],
+      ["storeOrderMinNoderTierTX", "$1", "(ORDER.(*order.Bid))#0.MinNodeTier"]] ∧
+    copyOrderStores = [["storeOrderTX", "$1", "(cb$1) | nil"], ["storeOrderTlvTX", "$1", "ORDER"],
+      ["storeOrderMinNoderTierTX", "$1", "(cb$2.minNodeTier)"],
+      ["storeOrderMinUnitsMatchTX", "$1", "(cb$2.minUnitsMatch)"]] ∧
+    updateOrderDecodes = ["DeserializeOrder((bytes.NewReader(cb$1)))", "deserializeOrderTlvData(ORDER)"] ∧
+    copyOrderDecodes = ["DeserializeOrder((bytes.NewReader(cb$1)))", "deserializeOrderTlvData(ORDER)"] ∧
+    getOrderDecodes = ["DeserializeOrder((bytes.NewReader(cb$1)))", "deserializeOrderTlvData(ORDER)"] := by decide
 
 /-- **One exported mutator = one bbolt write transaction.**  Regenerated from the source: each of the modelled
 `DB` methods contains exactly one `db.Update`, no separate read (`db.View`, `db.Account`, `db.GetOrder` …), and
